@@ -11,6 +11,8 @@ import itertools
 import textwrap
 import typing
 
+import numpy as np
+
 import fsic
 from fsic.exceptions import ParserError, SymbolError
 
@@ -22,7 +24,8 @@ LEVEL = 'exploration'
 TECHNIQUE = 'bounded exhaustive enumeration of programs x build routes x type hints x option lattice x converters; pairwise comparison of class attributes and of all-data evaluation results (recording values, all branch outcomes)'
 RULE = ('programs: specials (empty script, no equations, verbatim-only, multi-line, comments), S1 term shapes over 6 names, extras, S4 systems (6 quick / 12 thorough RHS); '
         '3 routes x 2 type-hint settings x 4 converters with default options, 4 converters that return empty or comment-only strings, and 3 routes x lags,leads in {None,0,2} x min_lags,min_leads in {0,1}. '
-        'non-trivial = accepted program with at least one symbol')
+        'non-trivial = accepted program with at least one symbol'
+        ' Converters: one whose output the compiler warns about, one whose output is not Python (first / every equation); explicit lengths as NumPy integers.')
 ASSUMPTIONS = [
     'the exec namespace provides BaseModel and the typing names the typed template annotates with (List, Optional, Any)',
     'evaluation is compared at a period in the middle of a 9-period span (offsets up to 3 either way)',
@@ -126,6 +129,32 @@ def run_case(case):
         return [], False
     out = []
     label_index = any(isinstance(s.lags, str) or "['" in (s.code or '') or '["' in (s.code or '') for s in symbols)
+    # 0. a converter whose output is not Python (for the first equation only; for every equation): the definition text does not
+    #    execute, so build_model must not hand back a class either - whatever it returned would be another model than the text
+    carriers0 = [x for x in symbols if x.equation is not None and x.code is not None and x.type.name in ('ENDOGENOUS', 'VERBATIM')]
+    if carriers0:
+        for which in ('first', 'all'):
+            def broken(x, which=which):
+                return 'this is not ( Python' if (which == 'all' or x is carriers0[0]) else x.code
+            try:
+                text = fsic.build_model_definition(symbols, converter=broken)
+            except Exception as e:
+                out.append(('broken-converter:definition:%s' % type(e).__name__, 'the text, with the output inserted as it is', repr(e)[:160], 'build_model_definition judged the converter output'))
+                break
+            try:
+                exec_class(text)
+                text_runs = True
+            except SyntaxError:
+                text_runs = False
+            try:
+                M = fsic.build_model(symbols, converter=broken)
+                built = True
+            except Exception as e:
+                built = type(e).__name__
+            if not text_runs and built is True:
+                out.append(('broken-converter:class-returned', 'an exception (the text does not execute)', 'a class: CODE %s the text' % ('==' if getattr(M, 'CODE', None) == text else '!='),
+                            'build_model returned a class although the definition with this converter\'s output does not execute (%s equation)' % which))
+                break
     # 1. routes x type hints x converters, default options
     for cname, conv in CONVERTERS.items():
         if cname == 'guard' and any(s.code and '=' not in s.code for s in symbols if s.type.name == 'ENDOGENOUS'):
@@ -249,7 +278,11 @@ def run_case(case):
     ref_lags = max([0] + [-x.lags for x in series])
     ref_leads = max([0] + [x.leads for x in series])
     for opt, want in ((dict(), (ref_lags, ref_leads)), (dict(min_lags=1, min_leads=2), (max(ref_lags, 1), max(ref_leads, 2))),
-                      (dict(lags=1, min_lags=3, leads=1, min_leads=3), (1, 1)), (dict(leads=0, min_leads=2), (ref_lags, 0))):
+                      (dict(lags=1, min_lags=3, leads=1, min_leads=3), (1, 1)), (dict(leads=0, min_leads=2), (ref_lags, 0)),
+                      # explicit lengths spelled as NumPy integers (what a table or np.max hands out) are explicit lengths
+                      (dict(lags=np.int64(ref_lags + 2), leads=np.int32(ref_leads + 1)), (ref_lags + 2, ref_leads + 1)),
+                      (dict(lags=np.int64(0), leads=np.int64(0), min_lags=np.int64(0)), (0, 0)),
+                      (dict(min_lags=np.int64(ref_lags + 1), min_leads=np.int16(0)), (ref_lags + 1, ref_leads))):
         try:
             M_o = fsic.build_model(symbols, **opt)
         except Exception as e:
